@@ -133,6 +133,9 @@ class World {
   // white-box accessors for additional invariants
   std::vector<int> queue_order(const std::string &name);   // client indices queued for a name, head first
   std::string bus_side_name(int client);                    // unique name the bus holds for that client's connection ("" if none)
+  bool accepted(int client);                                // has the bus accept()ed this client's connection yet
+  int rule_count(int client);                               // match rules the bus holds for that client (-1 unknown)
+  int names_owned(int client);
   int n_active();
   int n_incomplete();
 
